@@ -1,9 +1,10 @@
 #!/usr/bin/env python3
 """Runs the repository's pinned suite with the verif tag OFF and compares with /root/.vp/BASELINE.json."""
 import json, subprocess, os, sys
+REPO = os.environ.get("BASELINE_REPO", "/repo")
 env = dict(os.environ, GOFLAGS="-mod=mod")
 env.pop("GOTOOLCHAIN", None); env.pop("GOSUMDB", None)
-p = subprocess.run(["go", "test", "-json", "-vet=off", "-count=1", "-timeout", "25m", "./..."], cwd="/repo", env=env, capture_output=True, text=True)
+p = subprocess.run(["go", "test", "-json", "-vet=off", "-count=1", "-timeout", "25m", "./..."], cwd=REPO, env=env, capture_output=True, text=True)
 passed, failed = set(), set()
 for line in p.stdout.splitlines():
     try:
@@ -23,7 +24,7 @@ for m in missing:
     top = test.split("/")[0]
     ok = False
     for _ in range(3):
-        q = subprocess.run(["go", "test", "-json", "-vet=off", "-count=1", "-run", "^%s$" % re.escape(top), pkg], cwd="/repo", env=env, capture_output=True, text=True)
+        q = subprocess.run(["go", "test", "-json", "-vet=off", "-count=1", "-run", "^%s$" % re.escape(top), pkg], cwd=REPO, env=env, capture_output=True, text=True)
         res = {}
         for line in q.stdout.splitlines():
             try:
